@@ -250,5 +250,27 @@ pub fn gen_foreign(rng: &mut Rng, cfg: &ForeignCfg) -> Foreign {
         f.choices.push(c);
         f.scs.push(None);
     }
+    // one stream in six ends on the smallest thing a stream can end on: a zero-length message
+    // written as a bare type-3 chunk (here: the second of two on a fresh chunk stream, any csid form)
+    if rng.chance(1, 6) {
+        let mut csid = pick_csid(rng);
+        while pool.contains(&csid) || csid == 2 {
+            csid = pick_csid(rng);
+        }
+        let t = *rng.pick(&[0u32, 1, 40, 0xFFFFFE, 0xFFFFFF, 0x1000000]);
+        let (type_id, msid) = (*rng.pick(&[8u8, 9, 18]), *rng.pick(&[0u32, 1, 5]));
+        let form = if cfg.nonminimal_ok && rng.chance(1, 3) { CsidForm::Three } else { CsidForm::Min };
+        for (i, ts) in [t, t.wrapping_mul(2)].iter().enumerate() {
+            let m = Msg { type_id, msid, ts: *ts, data: vec![] };
+            let c = Choice { csid, form: if csid < 64 { CsidForm::Min } else { form }, fmt: if i == 0 { 0 } else { 3 } };
+            if i == 1 && !enc.legal_fmts(csid, &m, true).contains(&3) {
+                break;
+            }
+            f.chunks.push(enc.encode(&m, &c));
+            f.msgs.push(m);
+            f.choices.push(c);
+            f.scs.push(None);
+        }
+    }
     f
 }
